@@ -87,6 +87,22 @@ def handle (ws : List String) : String :=
          | none => "ok none"
          | some coll => "ok " ++ " ".intercalate (coll.map fun (t, side) =>
              s!"{t.kind.toString}:{side}:" ++ ",".intercalate (t.ps.map fun v => toString v.toBits)))
+  | "kwmodel" :: toks =>
+      -- option tokens of a cell card (lower-cased, '=' and parentheses already blanked) -> keyword record
+      (match parseKeywords toks with
+       | .error .pop => "ok error pop"
+       | .error .arrayFill => "ok error arrayfill"
+       | .error .badLat => "ok error badlat"
+       | .ok k =>
+         let o (x : Option String) := match x with | some v => v | none => "-"
+         let imp := if k.imp.isEmpty then "-" else ",".intercalate (k.imp.map fun (p, v) => s!"{hex p}:{v}")
+         let fill := match k.fill with
+           | some (st, u, ps) => s!"{if st then 1 else 0},{u}" ++ String.join (ps.map fun x => "," ++ x)
+           | none => "-"
+         let trcl := match k.trcl with
+           | some (st, ps) => s!"{if st then 1 else 0}" ++ String.join (ps.map fun x => "," ++ x)
+           | none => "-"
+         s!"ok imp={imp} u={o k.u} mat={o k.mat} rho={o k.rho} lat={o k.lat} fill={fill} trcl={trcl}")
   | "trmodel" :: mn :: rest =>
       -- card carrying a transformation: 12 numbers (O, B) first, then the card's parameters
       (match rest.mapM parseFloat? with
